@@ -115,6 +115,17 @@ def main():
         try:
             iobs, mobs = run_case(mod, drv, case)
         except Exception as e:
+            # an exception that comes OUT OF THE PACKAGE at a point where the harness expects none (every expected failure
+            # point is wrapped by the property's own module, and on the unchanged tree none escapes) is behaviour of the code
+            # under test, not an infrastructure failure: report it as a violation with this input as the replay
+            frames = [fr for fr in traceback.extract_tb(e.__traceback__)
+                      if os.path.realpath(fr.filename).startswith(os.path.realpath(common.REPO) + os.sep)]
+            if frames:
+                run.case(case, nontrivial=True, sample=False)
+                fail = {"package_raised_where_no_failure_is_expected": f"{type(e).__name__}: {e}"[:300],
+                        "at": f"{os.path.relpath(frames[-1].filename, common.REPO)}:{frames[-1].lineno}"}
+                failures.append((case, fail, None, None))
+                return fail
             traceback.print_exc()
             print(f"infrastructure failure in harness on case {json.dumps(case)[:500]}: {e}", file=sys.stderr)
             sys.exit(2)
@@ -198,7 +209,7 @@ def main():
     # ---- 5. verdict
     for (case, fail, iobs, mobs) in failures[:3]:
         small = case
-        if hasattr(mod, "shrink"):
+        if hasattr(mod, "shrink") and "package_raised_where_no_failure_is_expected" not in fail:
             small = shrink_case(mod, drv, case, lambda c: bool(oracle_fail(c, run_case(mod, None, c)[0])))
             iobs = run_case(mod, None, small)[0]
             fail = mod.oracle(small, iobs) or fail
